@@ -60,7 +60,7 @@ def compare(name, got_map, ref, grid, vs, how, case):
                 kinds = {a["name"]: a["kind"] for a in case["aux"]}
                 kind = kinds.get(el, "stock" if el.startswith("s") else "constant")
                 feats = sorted(SM.features(case) - {"converter", "flow", "biflow"})
-                vs.append(Violation("value:%s:%s" % (kind, "+".join(feats) if feats else "arith"),
+                vs.append(Violation("%s:%s:%s" % ("value-after-reparam" if name == "reparam" else "value", kind, "+".join(feats) if feats else "arith"),
                                     "%s: %s at t=%r (index %d) is %r, Euler reference %r; model %r" % (how, el, grid[i], i, g, w, SM.sym_show(case))))
                 return
 
@@ -97,6 +97,43 @@ def check_case(case, how=("topdown", "call", "plot", "batch")):
         if "call" in how and not vs:
             got = {nm: [elems[nm](t) for t in grid] for nm in names}
             compare("call", got, ref, grid, vs, "element(t)", case)
+        if "call" in how and not vs and case.get("reparam", True):
+            # the model is re-parameterised after it has been evaluated: numeric initial values and constants change,
+            # and the simulation must be the Euler solution of the model as it is now
+            import copy
+            case2 = copy.deepcopy(case)
+            changed = 0
+            for i, s_ in enumerate(case2["stocks"]):
+                if not isinstance(s_["init"], list):
+                    s_["init"] = float(s_["init"]) + 1.5 + i
+                    changed += 1
+            for i, c_ in enumerate(case2["constants"]):
+                if c_["value"] is not None and i % 2 == 0:
+                    c_["value"] = float(c_["value"]) * 0.5 + 0.25
+                    changed += 1
+            ref2 = None
+            if changed:
+                try:
+                    ref2 = SM.RefModel(case2, limit=1e9).run()
+                except E.Fragile:
+                    ref2 = None
+            if ref2 is not None:
+                for s_ in case2["stocks"]:
+                    if not isinstance(s_["init"], list):
+                        elems[s_["name"]].initial_value = float(s_["init"])
+                for i, c_ in enumerate(case2["constants"]):
+                    if c_["value"] is not None and i % 2 == 0:
+                        elems[c_["name"]].equation = c_["value"]
+                got = {nm: [elems[nm](t) for t in grid] for nm in names}
+                compare("reparam", got, ref2, grid, vs, "element(t) after new initial values / constants on an evaluated model", case)
+                info["reparam"] = True
+                # back to the generated parameters for the remaining observation points
+                for s_ in case["stocks"]:
+                    if not isinstance(s_["init"], list):
+                        elems[s_["name"]].initial_value = float(s_["init"])
+                for i, c_ in enumerate(case["constants"]):
+                    if c_["value"] is not None and i % 2 == 0:
+                        elems[c_["name"]].equation = c_["value"]
         if "plot" in how and not vs:
             got = {}
             for nm in names:
@@ -136,7 +173,7 @@ def _body(ctx):
             return
         feats = SM.features(case)
         nt = _flow_nonconstant(case) and case["n"] >= 3
-        labels = ["has:" + f for f in sorted(feats)] + ["dt:" + ("binary" if case["dt"] in SM.BINARY_DT else "decimal")]
+        labels = ["has:" + f for f in sorted(feats)] + ["dt:" + ("binary" if case["dt"] in SM.BINARY_DT else "decimal")] + (["reparam-after-evaluation"] if info.get("reparam") else [])
         ctx.case(SM.sym_show(case), nontrivial=nt, labels=labels, key=case)
         ctx.report(vs)
     return body
